@@ -197,6 +197,9 @@ func c05Derives(v *c03V, pred func(*c03V) bool) bool {
 		if pred(v) {
 			return true
 		}
+		if v.K == c03KInit && v.Root.Kind == "assert" && walk(v.Root.Of, d+1) {
+			return true // a type-asserted / type-switched value is the value it was asserted from
+		}
 		for _, f := range v.From {
 			if walk(f, d+1) {
 				return true
